@@ -4,7 +4,7 @@
    every instance. *)
 From Coq Require Import List Arith.
 Import ListNotations.
-From TH Require Conc.MsgQueue Conc.TaskPool Conc.SeqWriter Conc.Shutdown.
+From TH Require Conc.MsgQueue Conc.TaskPool Conc.SeqWriter Conc.Shutdown Conc.ConnClose.
 
 Definition mq_MS : nat := 10.
 Definition mq_EPS : nat := 0.
@@ -27,3 +27,9 @@ Definition sw_step (fixed : bool) (s : SeqWriter.st nat) (l : SeqWriter.label na
 
 Definition sd_init : Shutdown.st := Shutdown.init.
 Definition sd_step (s : Shutdown.st) (l : Shutdown.label) : option Shutdown.st := Shutdown.step s l.
+
+(* the connection's sending side: writer chain + builder handle + 1 KiB BufWriter (cap 1024) *)
+Definition cc_init : ConnClose.cst nat := ConnClose.cinit nat.
+Definition cc_step (s : ConnClose.cst nat) (l : ConnClose.clabel nat) : option (ConnClose.cst nat) :=
+  ConnClose.cstep nat 1024 true s l.
+Definition cc_closed (s : ConnClose.cst nat) : bool := ConnClose.wr_closed nat s.
